@@ -12,8 +12,18 @@ open Larking Larking.Selector
 theorem translator_complete : Gen.missing = [] := by decide
 
 theorem skeleton_unchanged :
-    (Gen.Skel.conds_ruleSelector_getRules, Gen.Skel.conds_ruleSelector_setRules)
-  = (Expected.C19.conds_ruleSelector_getRules, Expected.C19.conds_ruleSelector_setRules) := rfl
+    (Gen.Skel.conds_ruleSelector_getRules,
+     Gen.Skel.stmts_ruleSelector_getRules,
+     Gen.Skel.conds_ruleSelector_setRules,
+     Gen.Skel.stmts_ruleSelector_setRules,
+     Gen.Skel.conds_AddHealthz,
+     Gen.Skel.stmts_AddHealthz)
+  = (Expected.C19.conds_ruleSelector_getRules,
+     Expected.C19.stmts_ruleSelector_getRules,
+     Expected.C19.conds_ruleSelector_setRules,
+     Expected.C19.stmts_ruleSelector_setRules,
+     Expected.C19.conds_AddHealthz,
+     Expected.C19.stmts_AddHealthz) := rfl
 
 /-- `setRules` followed by `getRules(name)`: rule `j` is returned **iff** its selector is the
 method's qualified name or a trailing-wildcard pattern covering it — for every set of
